@@ -5,6 +5,7 @@ import (
 	"math/big"
 	"sync"
 
+	"github.com/consensys/gnark/backend"
 	"github.com/consensys/gnark/backend/hint"
 	"github.com/consensys/gnark/frontend"
 	"github.com/reilabs/gnark-lean-extractor/v2/abstractor"
@@ -120,46 +121,61 @@ type hintWire struct {
 	idx  int
 }
 
-// discoverHintWires runs one honest solve with recording wrappers around the two hints the circuits use and
-// returns every hint output wire, whatever widths the circuit under test decomposes into.
+// discoverHintWires runs one honest solve with recording wrappers around EVERY registered hint function (gnark's
+// own and any the code under test registers) and returns every hint output wire, whatever hints and widths the
+// circuit under test uses.
 func discoverHintWires(sys *rmon.Sys, as frontend.Circuit) []hintWire {
 	var mu sync.Mutex
 	var wires []hintWire
 	seen := map[string]bool{}
-	rec := func(id hint.ID, honest hint.Function) hint.Function {
+	sys.SolveWith(as, rmon.WrapAll(func(id hint.ID, honest hint.Function) hint.Function {
 		return func(q *big.Int, in []*big.Int, out []*big.Int) error {
-			key := fmt.Sprintf("%v|%d|%s", id, len(out), in[0].String())
+			ik := inKey(in)
+			key := fmt.Sprintf("%v|%d|%s", id, len(out), ik)
 			mu.Lock()
 			if !seen[key] {
 				seen[key] = true
 				for i := range out {
-					wires = append(wires, hintWire{id, len(out), in[0].String(), i})
+					wires = append(wires, hintWire{id, len(out), ik, i})
 				}
 			}
 			mu.Unlock()
 			return honest(q, in, out)
 		}
-	}
-	sys.Solve(as, rmon.Hints{rmon.NBitsID: rec(rmon.NBitsID, rmon.HonestNBits), rmon.InvZeroID: rec(rmon.InvZeroID, rmon.HonestInvZero)})
+	}))
 	return wires
 }
 
 // odometerHints fixes the chosen wires to vals (others stay honest).
-func odometerHints(chosen []hintWire, vals []int64) rmon.Hints {
-	wrap := func(id hint.ID, honest hint.Function) hint.Function {
+func odometerHints(chosen []hintWire, vals []int64) backend.ProverOption {
+	return rmon.WrapAll(func(id hint.ID, honest hint.Function) hint.Function {
+		mine := false
+		for _, w := range chosen {
+			if w.id == id {
+				mine = true
+			}
+		}
+		if !mine {
+			return honest
+		}
 		return func(q *big.Int, in []*big.Int, out []*big.Int) error {
 			if err := honest(q, in, out); err != nil {
 				return err
 			}
+			ik := ""
 			for k, w := range chosen {
-				if w.id == id && w.nOut == len(out) && w.in == in[0].String() {
-					out[w.idx].SetInt64(vals[k])
+				if w.id == id && w.nOut == len(out) {
+					if ik == "" {
+						ik = inKey(in)
+					}
+					if w.in == ik {
+						out[w.idx].SetInt64(vals[k])
+					}
 				}
 			}
 			return nil
 		}
-	}
-	return rmon.Hints{rmon.NBitsID: wrap(rmon.NBitsID, rmon.HonestNBits), rmon.InvZeroID: wrap(rmon.InvZeroID, rmon.HonestInvZero)}
+	})
 }
 
 // chooseWires picks at most max wires for exhaustive enumeration: the low digits of each decomposition first
